@@ -428,6 +428,7 @@ impl Monitor for C16 {
          depth 512 of parentheses, blocks, if chains, unary operators, calculator parentheses, #if and ?:; all x {-O0..3, --insert-code, -W all, -D}. \
          Oracle: Ok, or Err whose file is the input and whose line is within it (error kinds without a location field are counted separately); a \
          panic (site recorded), abort, stack overflow or hang (worker killed after 60 s on one case; median case ~1 ms) is a violation. \
+         A location in an included file is checked against the include directories. \
          non-trivial = every case (each is an execution of the real compiler)"
             .into()
     }
